@@ -487,5 +487,5 @@ func gen(r *hv.Rng, i int, tier string) (string, hv.Val) {
 func main() {
 	confload.Init()
 	defer confload.Cleanup()
-	hv.Main(&hv.Spec{Prop: "C13", Gen: gen, Impl: impl, NQuick: 4000, NThorough: 300000})
+	hv.Main(&hv.Spec{Prop: "C13", Gen: gen, Impl: impl, NQuick: 6000, NThorough: 300000})
 }
